@@ -65,6 +65,14 @@ def groups(tier, seed):
         for k in range(math.factorial(n)):
             yield {'tree': 'tie%d' % n, 'cases': [{'where': False, 'order': o, 'roots': 'dot', 'mode': None, 'arc': False, 'rd': k}
                                                   for o in (1, 2)]}
+    # family 5: many rows (internal buffers and batches have sizes too): two roots, long tie groups
+    yield {'tree': 'big', 'big': True, 'cases': [{'order': o, 'N': n} for o in (1, 2, 3) for n in (None, 1, 2, 10, 11, 299, 300, 301, 570, 571, 572)]}
+    # family 6: the select list reads file columns only inside later function arguments
+    yield {'tree': 'lim', 'cases': [{'where': False, 'order': o, 'roots': r, 'mode': None, 'arc': False, 'rd': None, 'sel': sel}
+                                    for sel in ("concat('f:', name)", "concat_ws('-', 'f', path)", "replace('x-y', 'y', name)")
+                                    for o in (0, 1) for r in ('dot', 'two')]}
+    # family 7: aggregates see every row whatever LIMIT says (one row is <= any N >= 1), also over several roots
+    yield {'tree': 'lim', 'agg': True, 'cases': [{'roots': r, 'N': n, 'arc': a} for r in ('dot', 'two') for n in (None, 1, 2, 5) for a in (False, True)]}
     # family 4: grouped rows are rows too
     yield {'tree': 'lim', 'grouped': True, 'cases': [{'gorder': o, 'gkey': k} for k in ('ext', 'size', 'is_dir') for o in (None, 'key', 'key desc', 'count desc')]}
     # family 3: all small shapes
@@ -74,9 +82,13 @@ def groups(tier, seed):
 
 
 def single(case):
+    if case.get('fam') == 'agg':
+        return {'tree': 'lim', 'agg': True, 'cases': [{k: case[k] for k in ('roots', 'N', 'arc')}]}
+    if case.get('fam') == 'big':
+        return {'tree': 'big', 'big': True, 'cases': [{'order': case['order'], 'N': case['N']}]}
     if 'gkey' in case:
         return {'tree': 'lim', 'grouped': True, 'cases': [{'gorder': case['gorder'], 'gkey': case['gkey']}], 'only_n': case['N']}
-    return {'tree': case['tree'], 'cases': [{k: case[k] for k in ('where', 'order', 'roots', 'mode', 'arc', 'rd')}],
+    return {'tree': case['tree'], 'cases': [{k: case[k] for k in ('where', 'order', 'roots', 'mode', 'arc', 'rd', 'sel') if k in case}],
             'only_n': case.get('N', 'all')}
 
 
@@ -93,6 +105,8 @@ def eval_group(env, group, tier):
     root = env.newdir('c6')
     if tname == 'lim':
         tree = lim_tree()
+    elif tname == 'big':
+        tree = {'r1': D({'a%03d' % i: F(5) for i in range(300)}), 'r2': D({'b%03d' % i: F(9 if i < 30 else 5 if i < 200 else 7) for i in range(270)})}
     elif isinstance(tname, str) and tname.startswith('tie'):
         tree = tie_tree(int(tname[3:]))
     else:
@@ -103,6 +117,10 @@ def eval_group(env, group, tier):
     try:
         if group.get('grouped'):
             return eval_grouped(env, root, group)
+        if group.get('agg'):
+            return eval_agg(env, root, group)
+        if group.get('big'):
+            return eval_big(env, root, group)
         for c in group['cases']:
             outs.extend(eval_pair(env, root, tname, c, group.get('only_n', 'all')))
     finally:
@@ -144,11 +162,14 @@ def eval_pair(env, root, tname, c, only_n):
         ns = [only_n]
     for N in ns:
         lim = '' if N is None else ' limit %d' % N
-        q = 'path from ' + frm + w + ob + lim + ' into list'
+        q = ('path, ' + c['sel'] if c.get('sel') else 'path') + ' from ' + frm + w + ob + lim + ' into list'
         o = env.run([q], cwd=root, preload=envx is not None, env=envx)
         case = dict(c, tree=tname, N=N, query=q)
         r = {'case': case, 'nt': N is not None and 0 < N < M, 'layer': 'ordered' if keys else 'unordered'}
-        rows = o.rows()
+        rows = o.rows(2) if c.get('sel') else o.rows()
+        if c.get('sel') and rows is not None:
+            rows = [r_[0] for r_ in rows]
+        rows = rows or []
         want = M if N in (None, 0) else min(N, M)
         r['trans'] = max(1, want)
 
@@ -217,4 +238,55 @@ def eval_grouped(env, root, group):
             else:
                 r.update(status='ok', sig=tuple(rows))
             res.append(r)
+    return res
+
+
+def eval_agg(env, root, group):
+    res = []
+    for c in group['cases']:
+        rootlist = ['.'] if c['roots'] == 'dot' else ['sub', 'oth']
+        ents = []
+        for r in rootlist:
+            es = om.entries(root if r == '.' else os.path.join(root, r), prefix=r)
+            if c['arc']:
+                es += [None] * sum(len(ZIP_MEMBERS) for e in es if e['name'].endswith('.zip'))
+            ents.extend(es)
+        M = len(ents)
+        tot = sum(e['size'] for e in ents if e) + (sum(ms for _, ms in ZIP_MEMBERS) if c['arc'] and any(e and e['name'].endswith('.zip') for e in ents) else 0)
+        opts = ' archives' if c['arc'] else ''
+        q = 'count(*), sum(size) from ' + ', '.join(r + opts for r in rootlist) + ('' if c['N'] is None else ' limit %d' % c['N']) + ' into list'
+        o = env.run([q], cwd=root)
+        rows = o.rows(2)
+        r = {'case': dict(c, fam='agg', query=q), 'nt': c['N'] is not None, 'layer': 'aggregate-limit'}
+        if o.rc != 0 or o.err or rows != [(str(M), str(tot))]:
+            r.update(status='viol', cls='aggregate-cut-by-limit', detail={'query': q, 'got': rows, 'expected': [M, tot], 'err': o.brief()['err']}, sig=('agg',))
+        else:
+            r.update(status='ok', sig=(M, tot))
+        res.append(r)
+    return res
+
+
+def eval_big(env, root, group):
+    ents = om.entries(os.path.join(root, 'r1'), prefix='r1') + om.entries(os.path.join(root, 'r2'), prefix='r2')
+    M = len(ents)
+    res = []
+    for c in group['cases']:
+        keys_spec = ORDERS[c['order']]
+        keys = [k.replace(' desc', '') for k in keys_spec]
+        dirs = [not k.endswith(' desc') for k in keys_spec]
+        N = c['N']
+        q = 'path from r1, r2 order by ' + ', '.join(keys_spec) + ('' if N is None else ' limit %d' % N) + ' into list'
+        o = env.run([q], cwd=root)
+        rows = o.rows()
+        want = M if N is None else min(N, M)
+        byp = {e['path']: e for e in ents}
+        r = {'case': {'fam': 'big', 'order': c['order'], 'N': N, 'query': q}, 'nt': N is not None and N < M, 'layer': 'big', 'trans': want}
+        full = [om.keyvec(e, keys) for e in om.full_sort(ents, keys, dirs)]
+        if o.rc != 0 or o.err or len(rows) != want or any(p not in byp for p in rows) or len(set(rows)) != len(rows):
+            r.update(status='viol', cls='row-count-big', detail={'query': q, 'got': len(rows), 'expected': want}, sig=('big',))
+        elif [om.keyvec(byp[p], keys) for p in rows] != full[:want]:
+            r.update(status='viol', cls='not-the-top-n-big', detail={'query': q, 'got': [str(om.keyvec(byp[p], keys)) for p in rows][:6], 'expected': [str(x) for x in full[:6]]}, sig=('bigtop',))
+        else:
+            r.update(status='ok', sig=(c['order'], N))
+        res.append(r)
     return res
